@@ -106,7 +106,7 @@ const FRAG_FRAGMENT: FuncDef = func!(
         =>
         raw: Bool = false,
         =>
-        Str
+        Void
     ) -> Pkt
     |mut args| {
         let obj = args.take_this();
@@ -133,7 +133,7 @@ const FRAG_TAIL: FuncDef = func!(
         =>
         raw: Bool = false,
         =>
-        Str
+        Void
     ) -> Pkt
     |mut args| {
         let obj = args.take_this();
@@ -156,7 +156,7 @@ const FRAG_DATAGRAM: FuncDef = func!(
         =>
         raw: Bool = false,
         =>
-        Str
+        Void
     ) -> Pkt
     |mut args| {
         let obj = args.take_this();
